@@ -78,7 +78,7 @@ theorem ext_scheduleLoop {s : State} (he : Ext s) (hs : List Header) (f : Nat) :
   induction hs generalizing f s with
   | nil => exact he
   | cons h t ih =>
-    simp only [scheduleLoop]
+    simp only [scheduleLoop, schedOneFast_eq]
     split
     · exact he
     · split
